@@ -231,7 +231,7 @@ func texts(r *ev.Run) {
 		judge("c20/special/"+t, t)
 		r.Distinct("special|" + t)
 	}
-	n := r.N(60000, 600000)
+	n := r.N(60000, 1500000)
 	for i := 0; i < n; i++ {
 		id := fmt.Sprintf("c20/rand/%d", i)
 		if !r.Want(id) {
@@ -411,7 +411,7 @@ func reported(body []byte) (string, bool) {
 }
 
 func httpSeqs(r *ev.Run) {
-	n := r.N(15000, 150000)
+	n := r.N(15000, 400000)
 	for i := 0; i < n; i++ {
 		id := fmt.Sprintf("c20/http/%d", i)
 		if !r.Want(id) {
